@@ -26,6 +26,7 @@ pub struct Cfg {
     pub nonzero_padding: bool,
     pub odd_padding: bool, // padding that is legal to receive but not what alignment requires
     pub dual_family: bool, // projected templates may carry the IPv4 and the IPv6 address of one side
+    pub low_ids: bool,     // template ids below 256, among them the values a version word has (metamorphic checks only)
 }
 
 impl Default for Cfg {
@@ -48,6 +49,7 @@ impl Default for Cfg {
             nonzero_padding: true,
             odd_padding: false,
             dual_family: false,
+            low_ids: false,
         }
     }
 }
@@ -468,6 +470,9 @@ impl Exporter {
     }
 
     fn pick_id(&mut self, rng: &mut Rng, cfg: &Cfg, existing: &[u16]) -> u16 {
+        if cfg.low_ids && rng.chance(1, 3) {
+            return *rng.pick(&[5u16, 7, 9, 10, 2, 3, 255, 4]);
+        }
         if cfg.small_ids {
             return 256 + rng.below(4) as u16;
         }
@@ -628,6 +633,13 @@ impl Exporter {
 
     pub fn v9_data(&self, rng: &mut Rng, cfg: &Cfg, t: &V9Tmpl) -> V9FlowSet {
         let rs = t.rec_size();
+        // (only with header count = flowsets: with the RFC's record count such a flowset adds nothing
+        // to the count, and this library walks at most `count` flowsets)
+        if rs >= 2 && !cfg.projected && cfg.count_is_flowsets && rng.chance(1, 16) {
+            // a data flowset that holds no complete record: a body shorter than one record is padding
+            let k = 1 + rng.usize((rs - 1).min(3));
+            return V9FlowSet::Data { tmpl: t.clone(), records: vec![], padding: rng.bytes(k) };
+        }
         // keep one flowset well inside the 16-bit length field
         let n = self.n_records(rng, cfg).min((12000 / rs.max(1)).max(1));
         let mut records: Vec<Vec<Vec<u8>>> = Vec::with_capacity(n);
@@ -681,7 +693,9 @@ impl Exporter {
             let k = rng.below(100);
             if (k < 25 || !have_t) && !(k >= 90 && have_o) {
                 if cfg.options && k % 5 == 0 {
-                    let n = 1 + rng.usize(4);
+                    // one options-template flowset in 25 carries 21-40 records (with a small id space
+                    // many of them redefine an id announced earlier in the same flowset)
+                    let n = if rng.chance(1, 25) { 21 + rng.usize(20) } else { 1 + rng.usize(4) };
                     let templates: Vec<V9OptTmpl> = (0..n).map(|_| self.v9_new_opt_template(rng, cfg, pools)).collect();
                     // options template records are 6+4k bytes: pad the flowset to a 4-byte boundary
                     let len: usize = templates.iter().map(|t| t.wire().len()).sum();
@@ -694,7 +708,7 @@ impl Exporter {
                     };
                     flowsets.push(V9FlowSet::OptionsTemplate { templates, padding });
                 } else {
-                    let n = 1 + rng.usize(3);
+                    let n = if rng.chance(1, 25) { 21 + rng.usize(20) } else { 1 + rng.usize(3) };
                     let templates: Vec<V9Tmpl> = (0..n).map(|_| self.v9_new_template(rng, cfg, pools)).collect();
                     let padding = if cfg.odd_padding && rng.chance(1, 5) {
                         // anything shorter than a template record header (4 bytes) is padding
@@ -992,6 +1006,16 @@ pub fn fixed_pkt(rng: &mut Rng, version: u16, n: usize) -> FixedPkt {
             if rng.chance(1, 4) {
                 let b = rng.bbytes(*w);
                 r[*off..*off + *w].copy_from_slice(&b);
+            }
+        }
+        if rng.chance(1, 8) {
+            // a 16-bit word that reads like the version field of a packet (or a small count), at a
+            // random even offset: record contents must never be mistaken for framing
+            let o = 2 * rng.usize(rl / 2);
+            let v = *rng.pick(&[5u16, 7, 9, 10, 0, 1]);
+            r[o..o + 2].copy_from_slice(&v.to_be_bytes());
+            if rng.chance(1, 2) && o + 4 <= rl {
+                r[o + 2..o + 4].copy_from_slice(&(rng.below(4) as u16).to_be_bytes());
             }
         }
         if rng.chance(1, 4) {
